@@ -58,7 +58,19 @@ def lintFilesParallel (R : Rules F V E) (P : Policy) (s : St E) (workers : Nat) 
   else if fs.length < workers * 2 then lintFiles R P s fs        -- sequential fallback
   else
     let v := done.flatMap (worker R)
-    let fin := R.finalize s.store                                  -- parent's stores saw no file
+    -- `_collect_cross_file_evidence`: the parent runs the collecting phase of the cross-file rules over
+    -- every file itself (what the workers gathered died with them), then finalizes
+    let s1 : St E := { store := s.store ++ fs.flatMap R.collect }
+    let fin := R.finalize s1.store
+    ((if P.keepAfterFinalize then s1 else { store := [] }), v ++ fin)
+
+/-- the pooled branch as it was before fix b158f57 (finding F07a): the parent finalized stores that saw no file -/
+def lintFilesParallelOld (R : Rules F V E) (P : Policy) (s : St E) (workers : Nat) (fs done : List F) : St E × List V :=
+  if fs.isEmpty then (s, [])
+  else if fs.length < workers * 2 then lintFiles R P s fs
+  else
+    let v := done.flatMap (worker R)
+    let fin := R.finalize s.store
     ((if P.keepAfterFinalize then s else { store := [] }), v ++ fin)
 
 /-- `effective_workers = max_workers or min(DEFAULT_MAX_WORKERS, cpu_count)` -/
